@@ -1,7 +1,7 @@
 """C01 — end-to-end proxy transparency (requests, responses, streaming)."""
 import re
 from .. import common as C
-from urllib.parse import quote
+from urllib.parse import quote, unquote
 from ..lbgen import STRATS
 
 
@@ -114,6 +114,94 @@ def short_body_episodes(rng):
                 ops.append("fl")
             for mode in ("direct", "via"):
                 ep.append("px x %s GET /p - 0 cl %s" % (mode, ";".join(ops)))
+        ep.append("px close")
+        eps.append(ep)
+    return eps
+
+
+def big_header_episodes(rng):
+    """answers whose header block is far larger than the usual few hundred bytes (a dozen long cookies, a long
+    security policy, one 40 KB value, 150 KB in all) and requests with the same: every byte is the backend's / the
+    client's to send, nothing in between may cap or drop it (the reference is the same exchange sent directly)"""
+    eps = []
+    for feats in ("-", "crpal", "ls"):
+        ep = ["px new round_robin %s - %s" % (rng.choice(["00", "11"]), feats)]
+        for kind in ("cookies", "policy", "one40k", "many", "reqbig"):
+            ops, h = [], []
+            if kind == "cookies":
+                ops = ["ah:Set-Cookie:%s" % enc("c%d=%s" % (i, "v" * 700)) for i in range(12)] + ["sh:Content-Security-Policy:%s" % enc("default-src " + "a" * 690)]
+            elif kind == "policy":
+                ops = ["sh:Content-Security-Policy:%s" % enc("default-src 'self' " + " ".join("https://h%d.example.org" % i for i in range(400)))]
+            elif kind == "one40k":
+                ops = ["sh:X-Blob:%s" % ("b" * 40000)]
+            elif kind == "many":
+                ops = ["sh:X-H%03d:%s" % (i, "z" * 480) for i in range(300)]
+            else:
+                h = [("Cookie", "; ".join("k%d=%s" % (i, "q" * 300) for i in range(40))), ("X-Big", "r" * 20000)]
+            ops += ["wh:200", "w:64:7"]
+            for mode in ("direct", "via"):
+                ep.append("px x %s GET /p %s 0 cl %s" % (mode, hdr_tok(h), ";".join(ops)))
+        ep.append("px close")
+        eps.append(ep)
+    return eps
+
+
+def abort_episodes(rng):
+    """a backend whose connection is reset in the middle of an answer that declared no length (chunked, bytes already
+    flushed), or right after its header: the client must see the answer break off, as it does when talking to the
+    backend directly — never a tidy end after fewer bytes"""
+    eps = []
+    for feats in ("-", "c", "crpal", "ls", "g"):
+        ep = ["px new round_robin %s - %s" % (rng.choice(["00", "11"]), feats)]
+        for ops in (["wh:200", "w:1024:1", "fl", "w:1024:2", "fl", "w:1024:3", "fl", "ab"],
+                    ["sh:Content-Type:text%2Fevent-stream", "wh:200", "w:64:5", "fl", "sl:30", "ab"],
+                    ["wh:200", "w:70000:9", "ab"],
+                    ["wh:404", "w:10:1", "fl", "ab"]):
+            for mode in ("direct", "via"):
+                ep.append("px x %s GET /p - 0 cl %s" % (mode, ";".join(ops)))
+        ep.append("px close")
+        eps.append(ep)
+    return eps
+
+
+def abort_oracle(ep, outs):
+    fails = []
+    lines = C.op_lines(ep)
+    i = 1
+    while i + 1 < len(lines):
+        ld, lv = lines[i], lines[i + 1]
+        if not (ld.startswith("px x direct") and lv.startswith("px x via")):
+            i += 1
+            continue
+        od, ov = outs[i], outs[i + 1]
+        i += 2
+        if "||" not in od or "||" not in ov or not lv.endswith(";ab"):
+            continue
+        d, v = fields(od.split("||", 1)[1]), fields(ov.split("||", 1)[1])
+        if d.get("rderr") != "short":
+            continue                    # (the direct exchange did not break: nothing to compare with)
+        nd, nv = int(d["body"].split(":")[0]), int(v["body"].split(":")[0])
+        if v.get("rderr") != "short" and v.get("status") == d.get("status"):
+            fails.append("the backend's connection was reset mid-answer (the direct client saw %d bytes, then a broken stream); through Helios the client "
+                         "got a complete %s answer of %d bytes [%s]" % (nd, v.get("status"), nv, lv))
+        if nv > nd:
+            fails.append("client received %d bytes of an answer of which the backend sent %d [%s]" % (nv, nd, lv))
+    return fails
+
+
+def multi_value_episodes(rng):
+    """request headers that arrive on several lines — also the identifier headers, with the features that read them
+    switched on: every line reaches the backend as sent"""
+    eps = []
+    for ids in ("11", "10", "01", "00"):
+        ep = ["px new round_robin %s - %s" % (ids, rng.choice(["-", "l", "ls"]))]
+        for h in ([("X-Request-Id", "first-1"), ("X-Request-Id", "second-2")],
+                  [("X-Trace-Id", "t-a"), ("X-Trace-Id", "t-b"), ("X-Trace-Id", "t-c")],
+                  [("X-Request-Id", "r-1"), ("X-Trace-Id", "t-1"), ("X-Request-Id", "r-2")],
+                  [("Accept", "text/html"), ("Accept", "application/json"), ("Cookie", "a=1"), ("Cookie", "b=2")],
+                  [("X-Custom", "1"), ("X-Custom", ""), ("X-Custom", "3")]):
+            for mode in ("direct", "via"):
+                ep.append("px x %s GET /p %s 0 cl wh:200;w:7:3" % (mode, hdr_tok(h)))
         ep.append("px close")
         eps.append(ep)
     return eps
@@ -254,6 +342,13 @@ def oracle(ep, outs):
             if k in names and names[k]:
                 continue
             fails.append("backend did not receive the client's header %s%s" % (h[:100], where))
+        # an identifier the client supplied (non-blank) is the client's header: every line of it arrives as sent
+        for k, on in names.items():
+            mine = [h for h in hd if h.split("=", 1)[0] == k]
+            theirs = [h for h in hv if h.split("=", 1)[0] == k]
+            first = mine[0].split("=", 1)[1] if mine else "-"
+            if on and mine and first != "-" and unquote(first).strip(" \t") != "" and mine != theirs:
+                fails.append("the client's %s lines %s reached the backend as %s%s" % (k, mine, theirs, where))
         # --- response as seen by the client
         if d["status"] != v["status"]:
             fails.append("status differs: backend sent %s, client got %s%s" % (d["status"], v["status"], where))
@@ -314,7 +409,12 @@ def check(ctx):
         eps.append(gen_episode(ctx.rng, per, strategy=STRATS[i % 5]))
     eps += short_body_episodes(ctx.rng) if ctx.thorough() else short_body_episodes(ctx.rng)[:4]
     eps += form_episodes(ctx.rng) if ctx.thorough() else form_episodes(ctx.rng)[:2]
+    eps += big_header_episodes(ctx.rng) if ctx.thorough() else big_header_episodes(ctx.rng)[:2]
+    eps += multi_value_episodes(ctx.rng) if ctx.thorough() else multi_value_episodes(ctx.rng)[:2]
     d.check(C.load_corpus(ID) + eps, oracle=oracle, label="wire")
+    ab = abort_episodes(ctx.rng) if ctx.thorough() else abort_episodes(ctx.rng)[:3]
+    C.Differential(ctx, binary, timeout=600, confirm=2).check_oracle_only(ab, abort_oracle, "wire-abort")
+    ctx.cov["backend_reset_mid_answer_episodes"] = len(ab)
     nx = sum(len(e) - 2 for e in eps) // 2
     scripts = set(l.split()[8] for e in eps for l in e if l.startswith("px x via"))
     ctx.cov.update({
